@@ -695,6 +695,7 @@ func c14(p *core.Program, r *core.Report) {
 
 	zeroAreaFallbackRule(p, r, "zero-area-fallback-exact")
 	centroidFrameRule(p, r, "centroid-frame-consistent")
+	fanBaseLocalRule(p, r, "fan-base-local")
 	ringSignRule(p, r, "shell-hole-polarity")
 	r.Assume("every numerical statement (weighted means, fall-back to the linear centroid, sign of the area) is not decided")
 }
